@@ -9,6 +9,8 @@ strings / all argument lists.
 -/
 import MesonModel.Quote.RuleLemmas
 import MesonModel.Quote.DigestLemmas
+import MesonModel.Quote.EnvLemmas
+import MesonModel.Quote.GenLemmas
 
 namespace MesonModel.Props.C03
 open MesonModel.Quote MesonModel.Py
@@ -490,7 +492,7 @@ theorem newline_anywhere_forces_serialisation (r : ExeReq)
     have hany : r.envVars.any (·.2.contains '\n') = true :=
       List.any_eq_true.2 ⟨kv, hkv, by simpa using hmemnl⟩
     have hmem : Reason.envNewlines ∈ reasons r := by
-      unfold reasons; rw [if_pos hne0, hany]; simp
+      unfold reasons; rw [if_pos (Or.inl hne0), hany]; simp
     have hne : reasons r ≠ [] := fun e => by rw [e] at hmem; simp at hmem
     have hne2 : reasons r ≠ [.env] := fun e => by rw [e] at hmem; simp at hmem
     unfold asMesonExeCmdline
@@ -523,6 +525,176 @@ theorem env_prefix_argv (r : ExeReq) (argv : List Str) (h : asMesonExeCmdline r 
   · split at h
     · split at h <;> cases h
     · cases h
+
+/-! ### The environment a command or test receives
+
+`environment()` objects record operations (`set`/`append`/`prepend` with several values and a
+separator, `unset`); `get_env` folds them over a base environment.  The specification is per
+variable (`envMeaning`): what a process sees for `n` is determined by what it inherits for `n` and the
+operations on `n` alone, in the order they were made. -/
+
+/-- **env_delivered_meaning**: for every operation list, every unset set, every base environment and
+every variable, `get_env` yields exactly the documented meaning -/
+theorem env_delivered_meaning (e : EnvVars) (dflt : Str → Option Str) (base : Dict) (n : Str) :
+    dictGet (getEnv e dflt base) n = envMeaning e dflt base n := getEnv_meaning e dflt base n
+
+/-- values are joined with the operation's own separator, which plays no role for a single value;
+`append`/`prepend` put the joined values after / before the current value -/
+theorem values_joined_by_own_separator (n v v1 v2 c sep : Str) (cur : Option Str) :
+    opValue cur ⟨.set, n, [v], sep⟩ = v ∧
+    opValue cur ⟨.set, n, [v1, v2], sep⟩ = v1 ++ sep ++ v2 ∧
+    opValue (some c) ⟨.append, n, [v1, v2], sep⟩ = c ++ sep ++ (v1 ++ sep ++ v2) ∧
+    opValue (some c) ⟨.prepend, n, [v1, v2], sep⟩ = v1 ++ sep ++ (v2 ++ sep ++ c) ∧
+    opValue none ⟨.append, n, [v], sep⟩ = v ∧ opValue none ⟨.prepend, n, [v], sep⟩ = v := by
+  simp [opValue, joinSep]
+
+example : dictGet (getEnv { ops := [⟨.set, "V".toList, ["a".toList, "b".toList], ";".toList⟩,
+                                    ⟨.append, "P".toList, ["x".toList], ":".toList⟩], unset := ["U".toList] }
+                    noDflt [("P".toList, "base".toList), ("U".toList, "u".toList)]) "V".toList = some "a;b".toList := by
+  decide
+
+/-- the pickled wrapper (`run_exe`): the wrapped process sees the meaning of the operation list over the
+wrapper's own environment -/
+theorem pickled_env_meaning (e : EnvVars) (osEnviron : Dict) (n : Str) :
+    dictGet (deliverPickled (some e) osEnviron) n = envMeaning e noDflt osEnviron n :=
+  getEnv_meaning e noDflt osEnviron n
+
+/-- `meson test`: the selected setup's operations over `os.environ`, then the test's own — an unset of
+the test's env is an absent variable -/
+theorem test_env_meaning (setup : Option EnvVars) (t : EnvVars) (osEnviron : Dict) (n : Str) :
+    dictGet (deliverTest setup t osEnviron) n =
+      if t.unset.contains n then none
+      else evalVar n none (match setup with
+                           | some s => envMeaning s noDflt osEnviron n
+                           | none => dictGet osEnviron n) t.ops := by
+  unfold deliverTest
+  rw [getEnv_meaning]
+  unfold envMeaning
+  cases setup with
+  | none => rfl
+  | some s => simp only [getEnv_meaning, noDflt]; rfl
+
+/-- **can_use_env_sound**: after any sequence of API calls on a fresh object (merging only objects that
+are themselves sound), `can_use_env` being still set means: nothing but `set` operations, nothing unset -/
+theorem can_use_env_sound (cs : List EnvCall) (h : ∀ c ∈ cs, CallOk c) : FlagSound (({} : EnvVars).run cs) :=
+  flagSound_run {} cs (fun _ => ⟨by simp, rfl⟩) h
+
+example : (({} : EnvVars).run [.set "A".toList ["x".toList] ":".toList,
+                               .merge (({} : EnvVars).run [.append "P".toList ["y".toList] ":".toList])]).canUseEnv = false := by
+  decide
+
+/-- **inline_env_agrees_with_pickled**: whenever the inline `env K=V … cmd` form may be taken (only
+`set` operations, nothing unset), env(1) started with the words `as_meson_exe_cmdline` writes runs
+exactly `cmd`, in an environment that agrees on every variable with the one the pickled wrapper would
+have built from the same operation list over the same base -/
+theorem inline_env_agrees_with_pickled (e : EnvVars) (hs : OnlySet e) (hn : ∀ op ∈ e.ops, GoodName op.name)
+    (c0 : Str) (rest : List Str) (hc : GoodUtility c0) (base : Dict) :
+    ∃ D, envUtility base (envAssignments e ++ c0 :: rest) = .ok (D, c0 :: rest) ∧
+      ∀ n, dictGet D n = dictGet (deliverPickled (some e) base) n := by
+  have hget : getEnv e noDflt [] = e.ops.foldl (applyOp noDflt) [] := by
+    unfold getEnv; rw [hs.2]; rfl
+  have hkeys : ∀ kv ∈ getEnv e noDflt [], GoodName kv.1 := by
+    intro kv hkv
+    have hk : kv.1 ∈ keys (e.ops.foldl (applyOp noDflt) []) := by
+      rw [← hget]; exact List.mem_map.2 ⟨kv, hkv, rfl⟩
+    rcases keys_foldl_ops noDflt e.ops [] kv.1 hk with h0 | ⟨op, hop, hname⟩
+    · simp [keys] at h0
+    · rw [← hname]; exact hn op hop
+  refine ⟨_, envUtility_assignments (getEnv e noDflt []) base c0 rest hkeys hc, ?_⟩
+  intro n
+  have hnd : (keys (getEnv e noDflt [])).Nodup := by
+    rw [hget]; exact nodup_foldl_ops noDflt e.ops [] (by simp [keys])
+  rw [dictGet_foldl_assign _ _ _ hnd]
+  exact (getEnv_onlySet e hs base n).symm
+
+inductive DErr where
+  | p (e : PErr) | u (e : EnvUtilErr) | shape
+  deriving DecidableEq, Repr
+
+/-- the inline form end to end: build statement → Ninja → /bin/sh → env(1) → (environment, command) -/
+def runInlineEnv (e : EnvVars) (cmd : List Str) (base : Dict) : Except DErr (Dict × List Str) :=
+  match runCustom (inlineEnvCmd e cmd) with
+  | .error x => .error (.p x)
+  | .ok cmds =>
+    match cmds with
+    | [argv] =>
+      (match envUtility base (argv.drop 1) with
+       | .ok r => .ok r
+       | .error x => .error (.u x))
+    | _ => .error .shape
+
+theorem inline_env_end_to_end (e : EnvVars) (hs : OnlySet e) (hn : ∀ op ∈ e.ops, GoodName op.name)
+    (c0 : Str) (rest : List Str) (hc : GoodUtility c0) (base : Dict)
+    (hw : ∀ w ∈ inlineEnvCmd e (c0 :: rest), NoNl w ∧ w ≠ andand) :
+    ∃ D, runInlineEnv e (c0 :: rest) base = .ok (D, c0 :: rest) ∧
+      ∀ n, dictGet D n = envMeaning e noDflt base n := by
+  obtain ⟨D, hD, hDn⟩ := inline_env_agrees_with_pickled e hs hn c0 rest hc base
+  refine ⟨D, ?_, fun n => by rw [hDn n]; exact pickled_env_meaning e base n⟩
+  unfold runInlineEnv
+  rw [command_argv (inlineEnvCmd e (c0 :: rest)) (by simp [inlineEnvCmd]) hw]
+  simp only [inlineEnvCmd]
+  have hdrop : List.drop 1 (sEnv :: envAssignments e ++ c0 :: rest) = envAssignments e ++ c0 :: rest := rfl
+  rw [hdrop, hD]
+
+/-! ### `generator()`: placeholder expansion touches only the documented placeholders -/
+
+/-- a word of `arguments:` without `@` reaches the command unchanged apart from the established
+`\` → `/` rewrite, whatever the input/output/depfile/directory names are -/
+theorem generator_word_without_placeholder (c : GenCtx) (w : Str) (h : '@' ∉ w) :
+    genArgStages c w = .ok (replaceChar '\\' ['/'] w) := genArgStages_no_at c w h
+
+/-- **extra_args_verbatim**: the strings of `process(extra_args: …)` are spliced in at the element that
+is exactly `@EXTRA_ARGS@` — same bytes (placeholder look-alikes and backslashes included), same count,
+same order — and the words around it keep their places -/
+theorem generator_extra_args_verbatim (c : GenCtx) (pre post extra : List Str)
+    (hpre : ∀ w ∈ pre, '@' ∉ w) (hpost : ∀ w ∈ post, '@' ∉ w) :
+    genCommandArgs c (pre ++ tEXTRA_ARGS :: post) extra =
+      .ok (pre.map (replaceChar '\\' ['/']) ++ extra ++ post.map (replaceChar '\\' ['/'])) := by
+  unfold genCommandArgs
+  let g : Str → Str := fun w => if w = tEXTRA_ARGS then w else replaceChar '\\' ['/'] w
+  have hg : ∀ a ∈ pre ++ tEXTRA_ARGS :: post, genArgStages c a = .ok (g a) := by
+    intro a ha
+    simp only [List.mem_append, List.mem_cons] at ha
+    have plain : '@' ∉ a → genArgStages c a = .ok (g a) := by
+      intro h
+      have hne : a ≠ tEXTRA_ARGS := by intro e; apply h; rw [e]; decide
+      simp only [g, hne, if_false]; exact genArgStages_no_at c a h
+    rcases ha with ha | rfl | ha
+    · exact plain (hpre a ha)
+    · simp only [g, if_true]; exact genArgStages_extra c
+    · exact plain (hpost a ha)
+  rw [mapM_ok _ g _ hg]
+  simp only [bind, Except.bind, pure, Except.pure, List.map_append, List.map_cons]
+  have hm : ∀ l : List Str, (∀ w ∈ l, '@' ∉ w) → l.map g = l.map (replaceChar '\\' ['/']) := by
+    intro l hl
+    apply List.map_congr_left
+    intro a ha
+    have hne : a ≠ tEXTRA_ARGS := by intro e; apply hl a ha; rw [e]; decide
+    simp [g, hne]
+  rw [hm pre hpre, hm post hpost]
+  have hgE : g tEXTRA_ARGS = tEXTRA_ARGS := by simp [g]
+  rw [hgE, replaceExtraArgs_append, show tEXTRA_ARGS :: List.map (replaceChar '\\' ['/']) post =
+      [tEXTRA_ARGS] ++ List.map (replaceChar '\\' ['/']) post from rfl, replaceExtraArgs_append]
+  rw [replaceExtraArgs_none _ extra (by
+        intro x hx; rw [List.mem_map] at hx; obtain ⟨w, hw, rfl⟩ := hx
+        exact replaceChar_ne_extra w (hpre w hw)),
+      replaceExtraArgs_none (List.map (replaceChar '\\' ['/']) post) extra (by
+        intro x hx; rw [List.mem_map] at hx; obtain ⟨w, hw, rfl⟩ := hx
+        exact replaceChar_ne_extra w (hpost w hw))]
+  simp [replaceExtraArgs]
+
+/-- `@EXTRA_ARGS@` is a placeholder only as a whole element: embedded in a longer word it stays -/
+theorem extra_args_only_as_whole_word (w : Str) (extra : List Str) (h : w ≠ tEXTRA_ARGS) :
+    replaceExtraArgs [w] extra = [w] := by
+  simp [replaceExtraArgs, h]
+
+example : genCommandArgs { infile := "../src/a.in".toList, soleOutput := "x.p/a.h".toList, privDir := "x.p".toList,
+                           outfiles := ["a.h".toList], depfile := none, buildToSrc := "../src".toList,
+                           sourceTargetDir := "../src".toList }
+    ["--in=@INPUT@".toList, "@BASENAME@|@PLAINNAME@".toList, "x@EXTRA_ARGS@".toList, tEXTRA_ARGS, "@OUTPUT0@".toList]
+    ["@INPUT@".toList, "a\\b".toList] =
+    .ok ["--in=../src/a.in".toList, "a|a.in".toList, "x@EXTRA_ARGS@".toList, "@INPUT@".toList, "a\\b".toList,
+         "x.p/a.h".toList] := by decide
 
 /-! ### `meson --internal exe`: the wrapper's own options never swallow the command -/
 
